@@ -3,6 +3,10 @@
 import json, subprocess
 
 CHECKS = {
+ "C04": ("exploration",
+         "Structure-aware hostile artifacts delivered through hostile schedules and I/O faults: rpgp-produced messages, certificates, secret keys, signatures and cleartext documents damaged at the armor, packet, pre-encryption-plaintext (re-encrypted under the recipient's session key with real rpgp) and pre-compression layers by flips, stores, truncation, duplication, deletion, insertion and length edits; PKESKs around attacker-chosen session-key plaintext of every length 0..40 x sampled (thorough: all) first octets for each public-key algorithm; 0..255 sweeps of the leading parameter octets of SKESK, secret-key S2K, signature, one-pass, literal, compressed and key packets; every processing entry point under catch_unwind with seam step budgets and a 120 s watchdog. Scoped: the unstructured all-byte-strings half of the quantifier is fuzzing, not this technique.",
+         "5 (C04)", "panics are observed through catch_unwind (a stack overflow or abort would kill the check, which then fails); reader accessors are not called after an error",
+         "deterministic simulation: layered fault injection into real traffic + byzantine peer stub + I/O faults"),
  "C18": ("exploration",
          "Multi-party simulation: sender, 1..4 key recipients over all pool encryption algorithms (locked/unlocked, addressed/anonymous), 0..3 password recipients over S2K kinds, outsiders with unrelated keys and passwords, a decoy stub that re-addresses one PKESK; every recipient alone, recipients mixed with outsiders in both orders, candidate-password lists for locked keys, v6 passwords among unrelated ones, outsiders / wrong password / wrong session key (no plaintext byte, Err by the end of the read), and the cross-check mode with conflicting session keys (must be reported). One recorded known finding (several SKESK v4 packets).",
          "5 (C18)", "SKESK v4 with decoy passwords excluded by the property itself; MDC/AEAD unforgeable",
